@@ -1,5 +1,51 @@
-import Secp.Hand.History
-/-! # C11 — placeholder: theorems are being added in this session -/
+import Secp.Proofs.MapToCurve
+/-!
+# C11 — map-to-curve is total and RFC-exact on every field element
+
+Model of the code: the *generated* `Curve.sswu` and `Curve.isogeny` (regenerated from `mapping.go` on every run, tied
+definitionally to small structured references), the generated `SqrtRatio` with its addition chain `x^((p-3)/4)`, the
+generated inversion chain, at the limb implementation. Specification: `Spec.Rfc9380.mapToCurveSimpleSwu` (§6.6.2
+textbook form, `sqrt` = the RFC's `x^((p+1)/4)`), `isoMap` (E.1 with the RFC's hex constants), `mapToCurve`.
+
+The three exceptional `u` (`u = 0`, `u = ±sqrt(-1/Z)`) are not special cases of the theorem: they are the branch
+`(Z u²)² + Z u² = 0` of `x1F`, where the proof uses that `g(B/(Z·A))` is a square (kernel-evaluated).
+-/
 namespace C11
-theorem model_is_total : True := trivial
+open Spec Spec.Rfc9380
+
+/-- **simplified SWU**: for every canonical `u` the generated straight-line map returns exactly the affine point of
+`map_to_curve_simple_swu(u)`; that point lies on the isogenous curve and `sgn0(y) = sgn0(u)` (when `y ≠ 0`) -/
+theorem sswu_exact (u : L4) (hu : limbOk u) :
+    limbOk (Curve.sswu FL u).x ∧ limbOk (Curve.sswu FL u).y ∧
+    (limbVal (Curve.sswu FL u).x).val = (mapToCurveSimpleSwu (limbVal u).val).1 ∧
+    (limbVal (Curve.sswu FL u).y).val = (mapToCurveSimpleSwu (limbVal u).val).2 ∧
+    limbVal (Curve.sswu FL u).y ^ 2 = gF (limbVal (Curve.sswu FL u).x) ∧
+    (limbVal (Curve.sswu FL u).y ≠ 0 → (limbVal (Curve.sswu FL u).y).val % 2 = (limbVal u).val % 2) := by
+  obtain ⟨ox, oy, ex, ey, rel⟩ := sswu_spec limbLawful limb_swConsts limb_sqrtConsts limb_sgnLaw u hu
+  exact ⟨ox, oy, ex, ey, rel.on_curve, rel.2.2⟩
+
+/-- **the isogeny** on every point of `E'` (indeed on any canonical pair): the E.1 rational map, the identity when
+a denominator vanishes -/
+theorem isogeny_exact (e : Pt L4) (hx : limbOk e.x) (hy : limbOk e.y) :
+    PtOk limbLawful (Curve.isogeny FL e) ∧
+    ((xDenF (limbVal e.x) = 0 ∨ yDenF (limbVal e.x) = 0) → Curve.isogeny FL e = ⟨FL.zero, FL.one, FL.zero⟩) ∧
+    (xDenF (limbVal e.x) ≠ 0 → yDenF (limbVal e.x) ≠ 0 →
+        limbVal (Curve.isogeny FL e).x = xNumF (limbVal e.x) / xDenF (limbVal e.x) ∧
+        limbVal (Curve.isogeny FL e).y = limbVal e.y * (yNumF (limbVal e.x) / yDenF (limbVal e.x)) ∧
+        (Curve.isogeny FL e).z = FL.one) :=
+  isogeny_spec limbLawful limb_isoConsts e hx hy
+
+/-- the image of `E'` under the isogeny satisfies `y² = x³ + 7` (degree-15 polynomial identity, certificate checked by `ring`) -/
+theorem isogeny_image_on_curve (x y : ZMod P) (hE : y ^ 2 = gF x) (hx : xDenF x ≠ 0) (hy : yDenF x ≠ 0) :
+    (y * (yNumF x / yDenF x)) ^ 2 = (xNumF x / xDenF x) ^ 3 + 7 := iso_on_curve x y hE hx hy
+
+/-- **C11**: the composition is total, always yields a valid group element, and is `map_to_curve(u)` of RFC 9380 -/
+theorem map_to_curve_exact (u : L4) (hu : limbOk u) :
+    PtValid limbLawful (Curve.isogeny FL (Curve.sswu FL u)) ∧
+    affPtG limbLawful (Curve.isogeny FL (Curve.sswu FL u)) = mapToCurve (limbVal u).val :=
+  map_to_curve_spec u hu
+
+-- non-vacuity: u = 0 (exceptional) and the Montgomery form of 1 are canonical
+example : limbOk ⟨0, 0, 0, 0⟩ ∧ limbOk FiatField.setOne := ⟨⟨by decide, by decide⟩, ⟨by decide, by decide⟩⟩
+
 end C11
